@@ -291,6 +291,16 @@ def resumable_shared_input():
     }}
 
 
+def rewaiter():
+    """p waits under ONE waiter id, returns None after its wait, and is invoked again later (a second A sent by a caller):
+    every wait under that id needs a response of its own."""
+    return {"timeout": None, "steps": {
+        "x": {"accepts": ["Start"], "nw": 1, "body": [{"op": "send", "ty": "A", "n": 1}, G, {"op": "none"}]},
+        "p": {"accepts": ["A"], "nw": 1, "returns": ["Stop"],
+              "body": [{"op": "wait", "ty": "Resp", "wid": "wp", "timeout": None, "wev": True}, G, {"op": "none"}]},
+    }}
+
+
 def waiter_shared_id():
     """two invocations of p (nw=2) wait under ONE waiter id: the waiter_event is still published once for that id."""
     return {"timeout": None, "steps": {
@@ -328,6 +338,8 @@ def family(name, quick=True):
         wq["steps"]["p"]["nw"] = 1
         out.append(("waiter_queue(nw=1)", wq, [("Resp", None)]))
         out.append(("retry_queue(nw=1)", fanout(1, 2, 2, 5, 1), []))
+    elif name == "rewait":
+        out.append(("rewaiter", rewaiter(), [("Resp", None), ("A", None)]))
     elif name == "collect_equal":
         # a repeated-type expected list filled with EQUAL-VALUED events (three identical votes): each is an event of its own
         for nw in (1,):           # (overlapping collecting invocations have their own recorded finding)
